@@ -102,6 +102,8 @@ def build_value(v: Any) -> Any:
             return None
         if "index" in v:
             return tuple(build_value(x) for x in v["index"])
+        if "raw" in v:
+            return v["raw"]
         raise core.HarnessError(f"unknown value literal {v}")
     return v
 
